@@ -55,6 +55,16 @@ def misuse(kind, a, b):
         m.st(abs(y) <= 100)
     elif kind == 'st_foreign_norm':
         m.st(rso.norm(y) <= 100)
+    elif kind == 'concat_foreign_first':
+        m.st(np.ones(4) @ rso.concat((y, x)) <= 100)
+    elif kind == 'concat_foreign_last':
+        m.st(np.ones(4) @ rso.concat((x, y)) <= 100)
+    elif kind == 'rstack_foreign':
+        m.st(rso.rstack(x, y).sum() <= 100)
+    elif kind == 'vec_foreign':
+        m.st(rso.vec(x[0], y[1]).sum() <= 100)
+    elif kind == 'sumsqr_two_foreign':
+        m.st(rso.sumsqr(x, y) <= 100)
     elif kind == 'mix_vars':
         m.st(x[0] + y[0] <= 100)
     elif kind == 'obj_foreign':
